@@ -34,19 +34,25 @@ import sqlite3  # noqa: E402
 _real_connect = sqlite3.connect
 
 
-def _event(phase):
+def _event(phase, upsert=False):
     """called before and after every execute/commit once armed"""
     if not STATE["armed"]:
         return
     if phase == "before":
         STATE["sql"] += 1
+        # injector E: the j-th statement, if it is the upsert of sync_individual, finds the database locked once
+        # (what sqlite reports after its busy timeout when another connection holds the lock); the writer is killed
+        # as soon as that synchronisation call has returned
+        if INJ and INJ["kind"] == "E" and INJ["j"] == STATE["sql"] and upsert and STATE.get("in_sync_individual"):
+            STATE["e_fired"] = True
+            raise sqlite3.OperationalError("database is locked")
     if INJ and INJ["kind"] == "B" and INJ["j"] == STATE["sql"] and INJ["phase"] == phase:
         die()
 
 
 class CrashCursor(sqlite3.Cursor):
     def execute(self, *a, **kw):
-        _event("before")
+        _event("before", upsert=bool(a) and isinstance(a[0], str) and a[0].lstrip().upper().startswith("INSERT INTO INDIVIDUALS"))
         r = super().execute(*a, **kw)
         _event("after")
         return r
@@ -116,8 +122,15 @@ class LoggedStore(SqliteDataStore):
     def sync_individual(self, individual):
         s = snap(individual)
         log({"e": "TRY", "s": s})
-        super().sync_individual(individual)
+        depth = STATE.get("in_sync_individual", 0)
+        STATE["in_sync_individual"] = depth + 1
+        try:
+            super().sync_individual(individual)
+        finally:
+            STATE["in_sync_individual"] = depth
         log({"e": "ACK", "id": s["id"], "s": s})
+        if depth == 0 and STATE.get("e_fired"):
+            die()
 
     def sync_all(self):
         snaps = [snap(i) for i in self.problem.individuals]
